@@ -124,7 +124,7 @@ func runC20Case(op string, reply []byte) string {
 			if len(r) == 0 {
 				return
 			}
-			outq <- frame(r) // written by the writer goroutine
+			outq <- frame(r)                  // written by the writer goroutine
 			time.Sleep(40 * time.Millisecond) // the queued callers stay stuck a little longer; then the peer reads continuously, as every peer here does
 			done = true
 		}
